@@ -63,12 +63,7 @@ def main():
                 shutil.rmtree(OUT, ignore_errors=True)
                 started = time.time()
                 env = dict(os.environ, PMSIM_REPO=TREE, PMSIM_OUT=OUT)
-                from_count = subprocess.run(
-                    ["/venv/bin/python", "-c", "import sys; sys.path.insert(0,'/verif'); from pmsim.checks import c13; print(c13.chain_count('quick'))"],
-                    capture_output=True,
-                    text=True,
-                ).stdout.strip()
-                proc = subprocess.run(["/venv/bin/python", "/verif/pmsim_cli.py", "check", "C13", "--tier", "quick", "--count", from_count], env=env, capture_output=True, text=True)
+                proc = subprocess.run(["/venv/bin/python", "/verif/pmsim_cli.py", "check", "C13", "--tier", "quick"], env=env, capture_output=True, text=True)
                 keys = sorted(set(re.findall(r"key=(\S+)", proc.stdout)))
                 occurrences = sum(int(n) for n in re.findall(r"occurrences=(\d+)", proc.stdout))
                 results.append({"rule": rule, "mutant": label, "dropped": what, "detected": proc.returncode == 1, "exit": proc.returncode, "keys": keys, "scenarios_violating": occurrences, "wall_s": round(time.time() - started, 1)})
